@@ -34,7 +34,7 @@ static hwloc_obj_t find_gp(hwloc_topology_t t, unsigned long gp) {
   prj_fini(&P);
   return r;
 }
-static int opt_xmldigest, opt_stores;
+static int opt_xmldigest, opt_stores, opt_udspecial;
 /* userdata deliveries made by the export callback / received by the import callback */
 struct deliv { unsigned long gp; char name[32]; int hasname; unsigned char data[64]; size_t len; };
 static struct deliv *dv; static unsigned ndv, capdv; static int dv_fail;
@@ -55,7 +55,8 @@ static void out_dv(void) {
 /* what is exported per object is a fixed function of its gp_index (the specification only compares export and import lists) */
 static void export_cb(void *reserved, hwloc_topology_t t, hwloc_obj_t obj) {
   unsigned long gp = (unsigned long)(obj->gp_index & 0x7fffffff); char txt[32]; unsigned char bin[8]; size_t n, i;
-  snprintf(txt, sizeof txt, "gp<%lu>&\"'", gp);
+  if (opt_udspecial) snprintf(txt, sizeof txt, "gp<%lu>&\"'", gp);     /* XML-special characters in the content */
+  else snprintf(txt, sizeof txt, "gp-%lu-tag", gp);
   if (hwloc_export_obj_userdata(reserved, t, obj, "tag", txt, strlen(txt)) < 0) dv_fail++; else dv_add(gp, "tag", txt, strlen(txt));
   if (gp % 2 == 0) { n = gp % 8; for (i = 0; i < n; i++) bin[i] = (unsigned char)(gp * 37 + i * 101);
     if (hwloc_export_obj_userdata_base64(reserved, t, obj, "b64", bin, n) < 0) dv_fail++; else dv_add(gp, "b64", bin, n); }
@@ -121,9 +122,9 @@ static void do_reset(char *p, int beh) {
   int s;
   for (s = 0; s < MAXSLOT; s++) { if (topo[s]) hwloc_topology_destroy(topo[s]); topo[s] = NULL; loaded[s] = 0; }
   nslots = (int)hwv_tokl(&p); if (nslots < 1) nslots = 1; if (nslots > MAXSLOT) nslots = MAXSLOT;
-  opt_xmldigest = 0; opt_stores = 0;
+  opt_xmldigest = 0; opt_stores = 0; opt_udspecial = 0;
   unsetenv("HWLOC_FSROOT"); unsetenv("HWLOC_CPUID_PATH"); unsetenv("HWLOC_COMPONENTS"); unsetenv("HWLOC_XMLFILE"); unsetenv("HWLOC_SYNTHETIC");
-  unsetenv("HWLOC_LIBXML"); unsetenv("HWLOC_LIBXML_IMPORT"); unsetenv("HWLOC_LIBXML_EXPORT");
+  /* HWLOC_LIBXML_IMPORT / HWLOC_LIBXML_EXPORT are decided once per process by the library and are given by the caller: kept */
   unsetenv("HWLOC_THISSYSTEM"); unsetenv("HWLOC_DUMPED_HWDATA_DIR"); unsetenv("HWLOC_X86_TOPOEXT_NUMANODES"); unsetenv("HWLOC_THISSYSTEM_ALLOWED_RESOURCES"); unsetenv("HWLOC_XML_EXPORT_SUPPORT");
   out("{\"e\":\"Reset\",\"beh\":%d,\"nslots\":%d}", beh, nslots); out_end();
 }
@@ -138,6 +139,7 @@ static void handler(char **lines, size_t n, int beh) {
       char *name = hwv_tok(&p); int v = (int)hwv_tokl(&p);
       if (name && !strcmp(name, "xmldigest")) opt_xmldigest = v;
       if (name && !strcmp(name, "stores")) opt_stores = v;
+      if (name && !strcmp(name, "udspecial")) opt_udspecial = v;
       continue;
     }
     if (!strcmp(cmd, "env")) {
